@@ -1,0 +1,170 @@
+//go:build verif
+
+// Contracts for package ast, read by /verif/engine (govc). Comments only.
+package ast
+
+// ---------------------------------------------------------------- lex.go (C05)
+// "For every TICKscript text ... defining it ... never panics": the lexer runs in its own
+// goroutine, so a slice-bounds panic there terminates the process. Cursor invariant:
+//@ spec lexOK(l *lexer) bool = l != nil && 0 <= l.start && l.start <= l.pos && l.pos <= len(l.input) && 0 <= l.width && l.width <= 4
+
+//@ func (*lexer).next
+//@   props C05
+//@   requires lexOK(l)
+//@   modifies l.pos, l.width
+//@   ensures lexOK(l) && l.pos == old(l.pos) + l.width
+//@   ensures old(l.pos) >= len(l.input) ==> l.width == 0 && r == eof
+//@   ensures old(l.pos) < len(l.input) ==> 1 <= l.width && 0 <= r
+//@   ensures 0 <= r && r < 128 && l.width > 0 ==> l.width == 1
+
+// backup undoes the last next(): sound only while width is still the width of the rune that
+// ends at pos (peek() overwrites width with the width of the rune it looked at).
+//@ func (*lexer).backup
+//@   props C05
+//@   requires lexOK(l) && l.width <= l.pos - l.start
+//@   modifies l.pos
+//@   ensures l.pos == old(l.pos) - l.width && lexOK(l)
+
+// peek looks at the next rune and leaves the cursor -- including width -- as it was.
+//@ func (*lexer).peek
+//@   props C05
+//@   requires lexOK(l)
+//@   modifies nothing
+//@   ensures l.pos >= len(l.input) ==> result == eof
+//@   ensures l.pos < len(l.input) ==> 0 <= result
+
+//@ func (*lexer).current
+//@   props C05
+//@   requires lexOK(l)
+//@   modifies nothing
+
+//@ func (*lexer).ignore
+//@   props C05
+//@   requires lexOK(l)
+//@   modifies l.start
+//@   ensures l.start == l.pos && lexOK(l)
+
+//@ func (*lexer).emit
+//@   props C05
+//@   requires lexOK(l)
+//@   modifies l.start
+//@   ensures l.start == l.pos && lexOK(l)
+
+//@ func (*lexer).errorf
+//@   props C05
+//@   requires lexOK(l)
+//@   modifies nothing
+
+//@ func (*lexer).ignoreSpace
+//@   props C05
+//@   requires lexOK(l)
+//@   modifies l.pos, l.width, l.start
+//@   ensures lexOK(l)
+//@   loop 1
+//@     modifies l.pos, l.width, l.start
+//@     invariant lexOK(l)
+
+//@ func (*lexer).expect
+//@   props C05
+//@   requires lexOK(l)
+//@   modifies l.pos, l.width
+//@   ensures lexOK(l)
+
+//@ func (*lexer).lineNumber
+//@   props C05
+//@   requires l != nil && 0 <= pos && pos <= len(l.input)
+//@   modifies nothing
+
+//@ func lexToken
+//@   props C05
+//@   requires lexOK(l)
+//@   modifies l.pos, l.width, l.start
+//@   ensures lexOK(l)
+//@   loop 1
+//@     modifies l.pos, l.width, l.start
+//@     invariant lexOK(l)
+
+//@ func lexUnaryOperator
+//@   props C05
+//@   requires lexOK(l)
+//@   modifies l.pos, l.width, l.start
+//@   ensures lexOK(l)
+
+//@ func tryLexBinaryOperator
+//@   props C05
+//@   requires lexOK(l)
+//@   modifies l.pos, l.width, l.start
+//@   ensures lexOK(l)
+
+//@ func lexIdentOrKeyword
+//@   props C05
+//@   requires lexOK(l)
+//@   modifies l.pos, l.width, l.start
+//@   ensures lexOK(l)
+//@   loop 1
+//@     modifies l.pos, l.width, l.start
+//@     invariant lexOK(l)
+
+//@ func lexNumberOrDurationOrDot
+//@   props C05
+//@   requires lexOK(l)
+//@   modifies l.pos, l.width, l.start
+//@   ensures lexOK(l)
+//@   loop 1
+//@     modifies l.pos, l.width, l.start
+//@     invariant lexOK(l)
+
+//@ func lexReference
+//@   props C05
+//@   requires lexOK(l)
+//@   modifies l.pos, l.width, l.start
+//@   ensures lexOK(l)
+//@   loop 1
+//@     modifies l.pos, l.width, l.start
+//@     invariant lexOK(l)
+
+//@ func lexSingleOrTripleString
+//@   props C05
+//@   requires lexOK(l)
+//@   modifies l.pos, l.width, l.start
+//@   ensures lexOK(l)
+//@   loop 1
+//@     modifies l.pos, l.width, l.start
+//@     invariant lexOK(l)
+//@   loop 2
+//@     modifies l.pos, l.width, l.start
+//@     invariant lexOK(l)
+
+//@ func lexRegex
+//@   props C05
+//@   requires lexOK(l)
+//@   modifies l.pos, l.width, l.start
+//@   ensures lexOK(l)
+//@   loop 1
+//@     modifies l.pos, l.width, l.start
+//@     invariant lexOK(l)
+
+//@ func lexComment
+//@   props C05
+//@   requires lexOK(l)
+//@   modifies l.pos, l.width, l.start
+//@   ensures lexOK(l)
+//@   loop 1
+//@     modifies l.pos, l.width, l.start
+//@     invariant lexOK(l)
+//@   loop 2
+//@     modifies l.pos, l.width, l.start
+//@     invariant lexOK(l) && l.width <= l.pos - l.start
+
+//@ func isUnaryOperatorChar
+//@   props C05
+//@   pure
+//@ func isSpace
+//@   props C05
+//@   pure
+//@ func isValidIdent
+//@   props C05
+//@   pure
+//@ func isDurUnit
+//@   props C05
+//@   pure
